@@ -22,7 +22,7 @@ from ref import docspec
 
 PROPERTY = "C03"
 LEVEL = "model_checking"
-RULE = ("explicit enumeration of document constructions: root variant x wrapper chain (each wrapper from a 16-entry menu) "
+RULE = ("explicit enumeration of document constructions: root variant x wrapper chain (each wrapper from a 20-entry menu) "
         "x leaf (31 shape variants) inside, with probe leaves before and after the wrapped subtree, x configurations "
         "(reify, ppi, caller size, caller transform); model state = the reference renderer's state (CTM, viewport size, "
         "use stack) at each element; a transition = one element start; every rendered shape is compared.  Non-trivial: "
@@ -100,6 +100,10 @@ WRAPPERS = [
     ("svg-vb-none", '<svg x="-3" y="4" width="40" height="10" viewBox="5 5 20 20" preserveAspectRatio="none">', '</svg>'),
     ("svg-vb-slice", '<svg width="40" height="10" viewBox="0 0 20 20" preserveAspectRatio="xMaxYMin slice">', '</svg>'),
     ("svg-bare", '<svg>', '</svg>'),
+    # a viewport of zero width: nothing inside is rendered, and nothing of it (its size!) may survive for the siblings
+    ("svg-zero", '<svg x="1" y="1" width="0" height="10" viewBox="0 0 5 5">', '</svg>'),
+    # preserveAspectRatio none with exactly one axis at scale 1
+    ("svg-none-1axis", '<svg x="5" y="7" width="30" height="40" viewBox="0 0 60 40" preserveAspectRatio="none">', '</svg>'),
     ("svg-pct", '<svg x="10%" y="10%" width="50%" height="50%" viewBox="0 0 10 10">', '</svg>'),
     ("use", None, None),            # body is moved into <defs><g id=..>body</g></defs> and referenced
     ("use-xy-tf", None, None),
